@@ -35,6 +35,8 @@ def alphabet(tier):
         {"op": "fresh", "as": "$f0", "prefix": "temp"},
         assign("$f0", V("a")),
         assign("temp", V("<p>q")),
+        gen.implicit(["<p>q"], ["a"], [S(["prod", [V("a"), V("a")]], ["prod", [C(-1), V("b")]])], [["guess", V("a")]]),
+        gen.implicit(["b"], ["u"], [S(V("u"), V("<state>y"))], [["guess", V("n")]]),
     ]
     if tier == "quick":
         return a
